@@ -70,6 +70,61 @@ theorem resolveObj_second (c : String) (hc : c ≠ "environment") (top file : En
       | _ => simp only [resolveObj_map_eq, he]
   | _ => simp only [resolveObj]
 
+/-- `big` defines everything `small` defines, with the same value (the environment of an include, at any depth,
+w.r.t. the environment of any model that includes it) -/
+def EnvExtends (small big : Env) : Prop := ∀ k v, small.lookup k = some v → big.lookup k = some v
+
+theorem EnvExtends_mergeEnv (top file : Env) : EnvExtends top (mergeEnv top file) := by
+  intro k v h
+  rw [lookup_mergeEnv, h]
+
+theorem EnvExtends_trans {a b c : Env} (h1 : EnvExtends a b) (h2 : EnvExtends b c) : EnvExtends a c :=
+  fun k v h => h2 k v (h1 k v h)
+
+/-- the general form of `resolveObj_second`: a later resolution with an environment the first one extends changes nothing -/
+theorem resolveObj_second_of_extends (c : String) (hc : c ≠ "environment") {small big : Env} (hext : EnvExtends small big) (v : Val) :
+    resolveObj c small (resolveObj c big v) = resolveObj c big v := by
+  cases v with
+  | map kvs =>
+    rw [resolveObj_map_eq c big kvs]
+    cases he : Val.lookup "environment" kvs with
+    | none => simp only [resolveObj_map_eq, he]
+    | some x =>
+      cases x with
+      | str e =>
+        simp only
+        by_cases hee : e = ""
+        · simp only [if_pos hee, resolveObj_map_eq, he]
+        · simp only [if_neg hee]
+          cases hb : big.lookup e with
+          | some found =>
+            simp only
+            cases hs : small.lookup e with
+            | some f2 =>
+              have := hext e f2 hs
+              rw [hb] at this
+              cases this
+              simp only [resolveObj_map_eq, lookup_insert_ne (Ne.symm hc), he, if_neg hee, hs, insert_insert_same]
+            | none => simp only [resolveObj_map_eq, lookup_insert_ne (Ne.symm hc), he, if_neg hee, hs]
+          | none =>
+            simp only
+            cases hs : small.lookup e with
+            | some f2 => have := hext e f2 hs; rw [hb] at this; cases this
+            | none => simp only [resolveObj_map_eq, he, if_neg hee, hs]
+      | _ => simp only [resolveObj_map_eq, he]
+  | _ => simp only [resolveObj]
+
+/-- any number of later resolutions, each with an environment the first one extends (nested includes: the model of
+the innermost file is resolved again by every model on the way up) -/
+theorem resolveObj_chain (c : String) (hc : c ≠ "environment") {big : Env} (v : Val) :
+    ∀ outer : List Env, (∀ e ∈ outer, EnvExtends e big) →
+      outer.foldr (fun e acc => resolveObj c e acc) (resolveObj c big v) = resolveObj c big v
+  | [], _ => rfl
+  | e :: r, h => by
+    simp only [List.foldr]
+    rw [resolveObj_chain c hc v r (fun x hx => h x (List.mem_cons_of_mem _ hx))]
+    exact resolveObj_second_of_extends c hc (h e List.mem_cons_self) v
+
 theorem resolveObjs_second (c : String) (hc : c ≠ "environment") (top file : Env) :
     ∀ objs : KVs, resolveObjs c top (resolveObjs c (mergeEnv top file) objs) = resolveObjs c (mergeEnv top file) objs
   | [] => rfl
